@@ -2,6 +2,7 @@ package sim
 
 import (
 	"fmt"
+	"runtime"
 	"strconv"
 	"sync"
 	"testing/synctest"
@@ -44,9 +45,11 @@ type Task struct {
 	site   int
 	wake   chan struct{}
 	skip   int
-	kill   bool
+	waitMu *sync.Mutex // parked in hook.Lock: eligible only while the mutex is free
 	nchild int
 	nyield int
+	Gnum   uint64   // runtime goroutine number (parsed from runtime.Stack): independent identity
+	Ident  uintptr  // simulated identity (C33 reuse-stress mode), 0 if none
 	Log    []string // "step|event"
 	Ch     *Stream
 	Panic  string
@@ -89,6 +92,8 @@ type Sched struct {
 	MaxParked int
 	SimTime   time.Duration
 	EndState  []string // tasks not done when the run ended: "name:blocked" or "name:parked@site"
+	// OnExit, if set, is called (on the exiting goroutine) when a task finishes
+	OnExit func(t *Task)
 	// ForeignLog collects events logged by goroutines that are not simulated tasks
 	ForeignLog []string
 }
@@ -192,6 +197,8 @@ func (s *Sched) Start(tok uintptr) {
 	}
 	t := &s.tasks[tok-1]
 	t.goid = gls.GoID()
+	t.Gnum = Gnum()
+	raceGStart(t.goid)
 	s.park(t, SiteStart)
 }
 
@@ -211,6 +218,10 @@ func (s *Sched) Exit(tok uintptr, v interface{}) {
 			t.Panic = fmt.Sprintf("%T:%v", v, v)
 		}
 	}
+	if f := s.OnExit; f != nil {
+		f(t)
+	}
+	raceGExit(t.goid)
 	raceOff()
 	t.goid = 0
 	t.state = tDone
@@ -265,9 +276,6 @@ func (s *Sched) park(t *Task, site int) {
 	}
 	<-t.wake
 	raceOn()
-	if t.kill {
-		panic(Killed{})
-	}
 }
 
 // Ev appends an event to the calling task's log, stamped with the scheduler step.
@@ -302,13 +310,26 @@ func (s *Sched) Run(main func()) {
 		default:
 		}
 		raceOn()
-		np, alive := 0, 0
+		np, alive, nwait := 0, 0, 0
 		for i := 0; i < s.ntasks; i++ {
 			t := &s.tasks[i]
 			if t.state != tDone {
 				alive++
 			}
 			if t.state == tParked {
+				if mu := t.waitMu; mu != nil {
+					// a lock waiter is runnable only if the lock is free right now
+					raceOff()
+					free := mu.TryLock()
+					if free {
+						mu.Unlock()
+					}
+					raceOn()
+					if !free {
+						nwait++
+						continue
+					}
+				}
 				parked[np] = t
 				np++
 			}
@@ -321,6 +342,11 @@ func (s *Sched) Run(main func()) {
 			s.Outcome = "steplimit"
 			break
 		}
+		if np == 0 && nwait > 0 && alive == nwait {
+			// every live task waits for a lock nobody will release
+			s.Outcome = "deadlock"
+			break
+		}
 		if np == 0 {
 			remaining := s.Cfg.MaxSimTime - time.Since(s.start)
 			if remaining <= 0 {
@@ -328,8 +354,9 @@ func (s *Sched) Run(main func()) {
 				break
 			}
 			timedOut := false
-			raceOff()
+			// NewTimer synchronises internally (sync.Once): keep it outside raceOff
 			tm := time.NewTimer(remaining)
+			raceOff()
 			select {
 			case <-s.notify:
 				tm.Stop()
@@ -383,40 +410,10 @@ func (s *Sched) Run(main func()) {
 			s.EndState = append(s.EndState, t.Name+":blocked")
 		}
 	}
-	// tear down: parked tasks are killed; tasks blocked in real operations leak
-	// (the bubble then ends with the synctest deadlock panic, recovered by RunBubble)
-	for i := 0; i < s.ntasks; i++ {
-		t := &s.tasks[i]
-		if t.state == tParked {
-			t.kill = true
-			t.state = tRunning
-			raceOff()
-			t.wake <- struct{}{}
-			raceOn()
-		}
-	}
-	if s.Outcome == "steplimit" {
-		// give killed tasks the chance to unwind (they may park again in deferred code)
-		for round := 0; round < 64; round++ {
-			raceOff()
-			synctest.Wait()
-			raceOn()
-			n := 0
-			for i := 0; i < s.ntasks; i++ {
-				t := &s.tasks[i]
-				if t.state == tParked {
-					t.state = tRunning
-					raceOff()
-					t.wake <- struct{}{}
-					raceOn()
-					n++
-				}
-			}
-			if n == 0 {
-				break
-			}
-		}
-	}
+	// tear down: nothing is killed. Tasks still parked or blocked in real operations stay
+	// where they are for ever; the bubble then ends with the synctest deadlock panic, which
+	// RunBubble recovers. (Killing a parked task would unwind through template code that
+	// has no recover, natively.)
 }
 
 //go:norace
@@ -455,3 +452,77 @@ func (t *Task) Done() bool { return t.state == tDone }
 
 //go:norace
 func (t *Task) Yields() int { return t.nyield }
+
+// Gnum returns the runtime's goroutine number of the caller, parsed from runtime.Stack:
+// an identity that does not depend on the interpreter's own goroutine-identity code.
+//
+//go:norace
+func Gnum() uint64 {
+	var buf [64]byte
+	n := runtime.Stack(buf[:], false)
+	// "goroutine 123 [running]:"
+	var v uint64
+	for i := len("goroutine "); i < n && buf[i] >= '0' && buf[i] <= '9'; i++ {
+		v = v*10 + uint64(buf[i]-'0')
+	}
+	return v
+}
+
+// TaskByGnum finds the live task running on goroutine number g.
+//
+//go:norace
+func (s *Sched) TaskByGnum(g uint64) *Task {
+	for i := 0; i < s.ntasks; i++ {
+		t := &s.tasks[i]
+		if t.Gnum == g && t.state != tDone && t.state != tFree {
+			return t
+		}
+	}
+	return nil
+}
+
+// Live calls f for every task that has not finished.
+//
+//go:norace
+func (s *Sched) Live(f func(t *Task)) {
+	for i := 0; i < s.ntasks; i++ {
+		t := &s.tasks[i]
+		if t.state != tDone && t.state != tFree {
+			f(t)
+		}
+	}
+}
+
+//go:norace
+func (t *Task) Goid() uintptr { return t.goid }
+
+// ForeignStart / ForeignExit bracket a goroutine that is not a simulated task (a timer
+// goroutine created by the runtime) for the g-recycling edge described in race_on.go.
+//
+// RaceIdentStart / RaceIdentExit: the same edge for simulated identities (reuse-stress mode).
+//
+//go:norace
+func RaceIdentStart(id uintptr) { raceGStart(id << 7) }
+
+//go:norace
+func RaceIdentExit(id uintptr) { raceGExit(id << 7) }
+
+//go:norace
+func ForeignStart() { raceGStart(gls.GoID()) }
+
+//go:norace
+func ForeignExit() { raceGExit(gls.GoID()) }
+
+// LockWait parks the calling task until the scheduler sees mu free and picks the task.
+//
+//go:norace
+func (s *Sched) LockWait(mu *sync.Mutex) {
+	t := s.cur()
+	if t == nil {
+		return
+	}
+	t.nyield++
+	t.waitMu = mu
+	s.park(t, SiteLock)
+	t.waitMu = nil
+}
